@@ -240,7 +240,8 @@ def zip_tasks(tier, role):
                  dict(nl=1, nr=1, iters=2, max_len=[3, 2], timed=True)]
     ts = []
     for c in cfgs:
-        nm = 'zip_%dx%d_i%d_%s' % (c['nl'], c['nr'], c['iters'], 'ts' if c['timed'] else 'items')
+        ml = c['max_len'] if isinstance(c['max_len'], list) else [c['max_len']]
+        nm = 'zip_%dx%d_i%d_l%s_%s' % (c['nl'], c['nr'], c['iters'], '-'.join(map(str, ml)), 'ts' if c['timed'] else 'items')
         ts.append(Task(nm, 'zip_harness', c,
                        bounds='Zip over Start<BinaryStartReceiver>: %d left and %d right upstream replicas, %d iterations x '
                               '<=%s elements each, one element per batch, every arrival interleaving of the two sides' %
@@ -374,7 +375,8 @@ def cache_tasks(tier, role):
                  dict(nl=1, nr=1, rounds=3, max_len=[2, 2, 1], cached='left')]
     ts = []
     for c in cfgs:
-        nm = 'cache_%s_%dx%d_r%d%s' % (c['cached'], c['nl'], c['nr'], c['rounds'], '_timeouts' if c.get('timeouts') else '')
+        nm = 'cache_%s_%dx%d_r%d_l%s%s' % (c['cached'], c['nl'], c['nr'], c['rounds'], '-'.join(map(str, c['max_len'])),
+                                         '_timeouts' if c.get('timeouts') else '')
         ts.append(Task(nm, 'cache_harness', c,
                        bounds='Start<BinaryStartReceiver> with the %s side cached: %d left / %d right producers, %d rounds '
                               'of the loop side x <=%s items, outside side delivered once (<=%s items per producer), one '
@@ -439,7 +441,8 @@ def binstart_flush_tasks(tier, role):
     cfgs = [dict(nl=1, nr=1, iters=1, max_len=[2], timeouts=1), dict(nl=1, nr=1, iters=2, max_len=[1, 1], timeouts=1)]
     if tier != 'quick':
         cfgs += [dict(nl=1, nr=1, iters=2, max_len=[2, 1], timeouts=2), dict(nl=2, nr=1, iters=1, max_len=[1], timeouts=1)]
-    return [Task('binstart_flush_%dx%d_i%d' % (c['nl'], c['nr'], c['iters']), 'binstart_flush_harness', c,
+    return [Task('binstart_flush_%dx%d_i%d_l%s_t%d' % (c['nl'], c['nr'], c['iters'], '-'.join(map(str, c['max_len'])), c['timeouts']),
+                 'binstart_flush_harness', c,
                  bounds='Start<BinaryStartReceiver>, adaptive batching: %d + %d producers, %d iteration(s) x <=%s items per '
                         'producer, one element per batch, every arrival interleaving, <=%d receive timeouts at any point; a '
                         'wait without timeout on unflushed output counts as a pause' %
@@ -510,7 +513,7 @@ def merge_tasks(tier, role):
     cfgs = [dict(nl=1, nr=1, iters=2, max_len=[2, 1]), dict(nl=2, nr=1, iters=1, max_len=[1])]
     if tier != 'quick':
         cfgs += [dict(nl=1, nr=1, iters=2, max_len=[3, 2]), dict(nl=2, nr=2, iters=1, max_len=[1])]
-    return [Task('merge_%dx%d_i%d' % (c['nl'], c['nr'], c['iters']), 'merge_harness', c,
+    return [Task('merge_%dx%d_i%d_l%s' % (c['nl'], c['nr'], c['iters'], '-'.join(map(str, c['max_len']))), 'merge_harness', c,
                  bounds='merge = Start<BinaryStartReceiver> + the filter_map closure of Stream::merge: %d + %d producers, %d '
                         'iteration(s) x <=%s items, every arrival interleaving' % (c['nl'], c['nr'], c['iters'], c['max_len']),
                  role=role, opts={'covers': ['merged']}, budget=300) for c in cfgs]
